@@ -421,6 +421,47 @@ def hostile_pow(n, rng, variant):
     return _hostile(f"7 ** {10 ** n}")
 
 
+ORDERS_QUICK = (1, 3, 5, 7, 9)
+ORDERS_THOROUGH = (1, 2, 3, 4, 5, 6, 7, 8, 9, 10, 12)
+
+
+@family("hostile_orders", quick=ORDERS_QUICK, thorough=ORDERS_THOROUGH, hostile=True)
+def hostile_orders(n, rng, variant):
+    """BOTH operand orders of every operator whose size bound is asymmetric (N * "s" / "s" * N, N * [..] / [..] * N,
+    b ** N / N ** b, 1 << N / N << 1, augmented forms, through literals and through single-valued variables) over the
+    geometric ladder N = 10**n, plus a few small folds that must still be computed"""
+    N = 10 ** n
+    lines = ["def entry(req):", "    sink(req)", f"    n = {N}", '    s = "ab"',
+             f'    k1 = {N} * "ab"', f'    k2 = "ab" * {N}', "    k3 = n * s", "    k4 = s * n",
+             f"    k5 = {N} * [1, 2]", f"    k6 = [1, 2] * {N}",
+             f"    k7 = 3 ** {N}", f"    k8 = {N} ** 3", "    k9 = 3 ** n", "    k10 = n ** 3",
+             f"    k11 = 1 << {N}", f"    k12 = {N} << 1", "    k13 = 1 << n", "    k14 = n << 1",
+             f"    k15 = {N} * {N}", f'    k16 = -{N} * "ab"', f'    k17 = "ab" * -{N}',
+             '    t = "ab"', f"    t *= {N}", f"    u = {N}", '    u *= "ab"', "    v = 3", f"    v **= {N}",
+             "    w = 1", f"    w <<= {N}",
+             '    m1 = 3 * "ab"', '    m2 = "ab" * 3', "    m3 = 2 ** 5", "    m4 = 1 << 4", "    m5 = 6 * 7",
+             "    y = [k1, k2, k3, k4, k5, k6, k7, k8, k9, k10, k11, k12, k13, k14, k15, k16, k17, t, u, v, w, m1, m2, m3, "
+             "m4, m5, req]",
+             "    return y", ""]
+    return "\n".join(lines) + PY_TAIL
+
+
+@family("js_hostile_orders", lang="javascript", quick=ORDERS_QUICK, thorough=ORDERS_THOROUGH, hostile=True)
+def js_hostile_orders(n, rng, variant):
+    """JavaScript: both operand orders of *, **, <<, + with numeric strings and numbers over the ladder N = 10**n
+    (lian coerces loosely typed operands before folding)"""
+    N = 10 ** n
+    lines = ["function entry(req) {", "  sink(req);", f"  var n = {N};", '  var s = "5";',
+             f'  var k1 = {N} * "5";', f'  var k2 = "5" * {N};', "  var k3 = n * s;", "  var k4 = s * n;",
+             f"  var k5 = 3 ** {N};", f"  var k6 = {N} ** 3;", "  var k7 = 3 ** n;", "  var k8 = n ** 3;",
+             f"  var k9 = 1 << {N};", f"  var k10 = {N} << 1;", "  var k11 = 1 << n;",
+             f'  var k12 = "ab" + {N};', f'  var k13 = {N} + "ab";', f'  var k14 = "ab" * {N};', f'  var k15 = {N} * "ab";',
+             "  var m1 = 2 ** 5;", "  var m2 = 6 * 7;", '  var m3 = "a" + "b";',
+             "  var y = [k1, k2, k3, k4, k5, k6, k7, k8, k9, k10, k11, k12, k13, k14, k15, m1, m2, m3, req];",
+             "  return y;", "}", "", "entry(1);", ""]
+    return "\n".join(lines)
+
+
 @family("hostile_pow_tower", quick=(1, 2), thorough=(1, 2, 3), hostile=True, growth=False)
 def hostile_pow_tower(n, rng, variant):
     """k = 9 ** 9 ** ... (tower of height n + 1; height 3 is the classic 9**9**9)"""
